@@ -10,6 +10,14 @@ class Unsupported(AnalysisError):
     pass
 
 
+class PyRaise(Exception):
+    """the evaluated code would raise this built-in exception here (an index out of range, a missing key): caught by a try statement of the
+    evaluated function, otherwise it ends the evaluation like a raise statement"""
+    def __init__(self, name):
+        Exception.__init__(self, name)
+        self.name = name
+
+
 class Obj(dict):
     """a record standing for an object of the analysed program: attribute name -> value (handed to the evaluator by a rule)"""
 
@@ -332,7 +340,11 @@ def ev(node, env):
         i = ev(node.slice, env)
         if isinstance(b, (list, tuple, bytes, bytearray)) and isinstance(i, int) and -len(b) <= i < len(b):
             return b[i]
+        if isinstance(b, (list, tuple, bytes, bytearray, str)) and isinstance(i, int) and env.get('__try__'):
+            raise PyRaise('IndexError')
         if isinstance(b, dict):
+            if i not in b and env.get('__try__'):
+                raise PyRaise('KeyError')
             return b[i]       # KeyError propagates: the caller decides what a missing key means
     raise Unsupported(ast.dump(node)[:80])
 
@@ -343,7 +355,10 @@ class Ret(Exception):
 
 
 class Raised(Exception):
-    pass
+    """the evaluated function raises; .name is the class named in the raise statement (or the built-in exception), '' when unknown"""
+    def __init__(self, name=''):
+        Exception.__init__(self, name)
+        self.name = name
 
 
 class _Unknown(object):
@@ -398,7 +413,8 @@ def run_function(f, env, max_steps=10000, skip_calls=False, tolerant=False):
             if isinstance(s, ast.Return):
                 raise Ret(ev(s.value, env) if s.value is not None else None)
             elif isinstance(s, ast.Raise):
-                raise Raised()
+                exc = s.exc.func if isinstance(s.exc, ast.Call) else s.exc
+                raise Raised(ast.unparse(exc).split('.')[-1] if exc is not None else '')
             elif isinstance(s, ast.If):
                 try:
                     tv = ev(s.test, env)
@@ -468,6 +484,32 @@ def run_function(f, env, max_steps=10000, skip_calls=False, tolerant=False):
                         continue
                 else:
                     block(s.orelse)
+            elif isinstance(s, ast.Try) and not s.finalbody:
+                depth_ = env.get('__try__', 0)
+                env['__try__'] = depth_ + 1
+                try:
+                    try:
+                        block(s.body)
+                    finally:
+                        env['__try__'] = depth_
+                except PyRaise as e:
+                    for h in s.handlers:
+                        names_ = []
+                        if h.type is None:
+                            names_ = [e.name]
+                        elif isinstance(h.type, ast.Name):
+                            names_ = [h.type.id]
+                        elif isinstance(h.type, ast.Tuple):
+                            names_ = [x.id for x in h.type.elts if isinstance(x, ast.Name)]
+                        if e.name in names_ or 'Exception' in names_ or (e.name in ('IndexError', 'KeyError') and 'LookupError' in names_):
+                            if h.name:
+                                env[h.name] = UNKNOWN
+                            block(h.body)
+                            break
+                    else:
+                        raise
+                else:
+                    block(s.orelse)
             elif isinstance(s, ast.Break):
                 raise _Break()
             elif isinstance(s, ast.Continue):
@@ -486,6 +528,8 @@ def run_function(f, env, max_steps=10000, skip_calls=False, tolerant=False):
         block(f.body if isinstance(f, ast.FunctionDef) else f)
     except Ret as r:
         return r.v, env
+    except PyRaise as e:
+        raise Raised(e.name)
     return None, env
 
 
